@@ -154,6 +154,7 @@ func (s *serviceImpl) Remove(objectID uint32) error {
 	s.Lock()
 	if obj, ok := s.objects[objectID]; ok {
 		delete(s.objects, objectID)
+		delete(s.boxes, objectID)
 		s.Unlock()
 		obj.OnTerminate()
 		return nil
